@@ -69,8 +69,8 @@ def fp(obj, _depth=0):
         for p in obj._params:
             v = getattr(obj, p)
             out[p] = _OPS.get(v, repr(v)) if callable(v) else fp(v, d)
-        out['meta'] = fp(obj.meta, d)
-        out['visual'] = fp(obj.visual, d)
+        out['meta'] = fp(getattr(obj, 'meta', '<missing>'), d)
+        out['visual'] = fp(getattr(obj, 'visual', '<missing>'), d)
         extras = {}
         for k, v in sorted(vars(obj).items()):
             if k in obj._params or k in ('meta', 'visual', '_operator'):
